@@ -88,8 +88,13 @@ def grid_specs():
     data = lambda d, n, gap=0, pnl=0: {"op": "data", "d": d, "pk": [{"fr": [["stream", 0, n, None, False, True, None], ["ack", 1, 2, 0, [], None, None]],
                                                                          "gap": gap, "pnl": pnl}]}
     base_steps = [data(0, 40), data(1, 300), data(0, 41), data(1, 301), data(1, 302), data(0, 42)]
+    nst = lambda n, cut=0: {"op": "data", "d": 1, "pk": [{"fr": [["nst", n, cut, None], ["stream", 4, 50 + n, None, False, True, None]], "gap": 0, "pnl": 0}]}
     variants = {
         "plain": {},
+        # post-handshake messages (session tickets, whole and split over two CRYPTO frames) before, between and after key updates of both sides
+        "tickets_and_key_updates": {"steps": [data(0, 40), data(1, 300), nst(60), {"op": "ku", "d": 0}, data(0, 41), data(1, 301), nst(33, 10),
+                                              {"op": "ku", "d": 1}, data(1, 302), data(0, 42), nst(80), {"op": "ku", "d": 0}, data(0, 43), data(1, 303),
+                                              nst(0), nst(20, 3), data(1, 304), data(0, 44)]},
         "retry": {"retry": True},
         "early": {"early": 2},
         "split_ch": {"split_ch": 3},
